@@ -1004,6 +1004,8 @@ def run(ctx: Ctx) -> int:
     usage = {a: 0 for a in ("AddPara", "OpenList", "AddItem", "CloseList(fused)", "AddLiteral", "AddDoctest", "AddCode",
                             "OpenSection", "AddField")}
     all_exhaustive = True
+    whole_pool: List[Dict[str, Any]] = []
+    whole_templates: Dict[str, Any] = {}
     for pl in plan(ctx):
         cfg = CFG.format(actions=pl["actions"], depth=pl["depth"], fields=pl["fields"], kinds=tla_set(pl["kinds"]),
                          blocks=tla_set(pl["blocks"]), free="TRUE" if pl["free"] else "FALSE")
@@ -1013,6 +1015,8 @@ def run(ctx: Ctx) -> int:
             recs.sort(key=lambda x: json.dumps(x["doc"], sort_keys=True) + x["host"])
             recs = rng.sample(recs, pl["sample"])
             all_exhaustive = False
+        if not whole_pool:
+            whole_pool, whole_templates = list(recs), templates
         outs = run_documents(ctx, recs, templates, FORMATS)
         for o in outs:
             st = stats[o["fmt"]]
@@ -1054,6 +1058,36 @@ def run(ctx: Ctx) -> int:
         cfg_stats.append({"cfg": pl["name"], "constants": {k: pl[k] for k in ("actions", "depth", "fields", "kinds", "blocks", "free")},
                           "documents_enumerated": enumerated, "documents_replayed": len(recs),
                           "tlc_distinct_states": r.distinct})
+    # ------------------------------------------------------------------ a sample through a complete pydoctor run
+    wr_n = 120 if ctx.quick else 1200
+    pool_recs = [x for x in whole_pool if x["host"] == "function"]
+    pool_recs.sort(key=lambda x: json.dumps(x["doc"], sort_keys=True))
+    pool_recs = rng.sample(pool_recs, min(len(pool_recs), wr_n))
+    wr_stats = {"documents": 0, "missing_block": 0, "violating_documents": 0}
+    for fmt in FORMATS:
+        cases, kept = [], []
+        for i, rec in enumerate(pool_recs):
+            ds = serialise(rec["doc"], fmt, whole_templates)
+            if ds is not None:
+                cases.append({"id": i, "docstring": ds})
+                kept.append(rec)
+        if not cases:
+            continue
+        for c, rec, res in zip(cases, kept, whole_run(ctx.scratch, fmt, cases)):
+            if res is None:
+                wr_stats["missing_block"] += 1
+                continue
+            wr_stats["documents"] += 1
+            ctx.traces += 1
+            failed = judge(rec, fmt, c["docstring"], res)
+            if failed:
+                wr_stats["violating_documents"] += 1
+            for f in failed:
+                ctx.violation({"invariant": f["invariant"], "origin": "whole-run", "format": fmt, "input": c["docstring"], "rec": rec,
+                               "failed": f, "warnings": res["log"], "key": "wr:" + witness_key(fmt, f, rec)})
+    if wr_stats["missing_block"] > 0.1 * max(1, wr_stats["documents"]):
+        raise MachineryError(f"whole run: docstring blocks not found in the generated page: {wr_stats}")
+    ctx.extra["whole_run"] = wr_stats
     ctx.extra["docmodel_configurations"] = cfg_stats
     ctx.extra["per_format"] = stats
     ctx.extra["parse_warning_examples"] = examples_parse
